@@ -53,7 +53,7 @@ func init() {
 			if o.Kind.IsMulti() && i%5 == 2 {
 				o.Max = 1 << 62 // "unlimited"
 			}
-			if o.Kind == KInt && i%4 == 1 {
+			if (o.Kind == KInt || o.Kind == KString || o.Kind == KStrings) && i%4 == 1 {
 				o.ArgName = "n" + strings.Repeat("x", 95) // a synopsis entry wider than the wrapping column
 			}
 			if o.Kind == KStrings && r.Chance(1, 2) {
